@@ -3,3 +3,4 @@ import Dalek.Props.C11.Formulas
 import Dalek.Props.C11.Avx2
 import Dalek.Props.C11.Ifma
 import Dalek.Props.C11.VecChain
+import Dalek.Props.C11.Fiat
